@@ -1,4 +1,5 @@
 import Proofs.SeqSteps
+import Proofs.SeqStore2
 import Proofs.SeqDemo
 /-! C04 — Object storage is always a complete, exact rendering of the leaf sequence.
 
@@ -59,6 +60,26 @@ theorem C04_immutable_once (st st' : Key → Option (Obj × Bool)) (k : Key) (im
 /-- Nothing but staging bundles is ever discarded. -/
 theorem C04_only_staging_discarded {s : Sys} (r : Reachable s) : ∀ k ∈ s.discarded, ∃ t, k = .staging t :=
   (inv2_reachable r).disc
+
+/-- **Completeness (I3).** At every moment of every run without tampering — after each individual storage
+    operation, whatever faults, crashes, restarts and interleavings of instances happened — the
+    checkpoint object in storage is fully backed: every hash, data and names tile the Static CT layout
+    needs for its tree (full, or partial at the right edge; all levels a 64-bit tree can have) is in the
+    store, immutable, with exactly the content prescribed for that tree's leaves. -/
+theorem C04_complete_at_publish {s : Sys} (r : Reachable s) (ht : s.tampered = false) (c : Ck) (imm : Bool)
+    (hc : s.store .ckpt = some (.ck c, imm)) (t : TileId) (hreq : Req c.leaves.length t = true)
+    (hl : t.kind.level < 8) : s.store (.tile t) = some (.slice (t.slice c.leaves), true) := by
+  have h3 := inv3_reachable r ht
+  exact h3.pub c (h3.ckpt c imm hc) t hreq hl
+
+/-- the same for every checkpoint that was ever published (they all stay completely rendered) -/
+theorem C04_published_stay_complete {s : Sys} (r : Reachable s) (ht : s.tampered = false) :
+    ∀ c ∈ s.pubHist, Complete s.store c.leaves :=
+  (inv3_reachable r ht).pub
+
+example : ∃ s, Reachable s ∧ s.tampered = false ∧ ∃ c imm, s.store .ckpt = some (.ck c, imm) ∧ c.leaves.length = 1 := by
+  obtain ⟨s, h, ht, hc, _⟩ := Seq.Demo.demo_untampered
+  exact ⟨s, ⟨0, _, h⟩, ht, _, _, hc, rfl⟩
 
 /-- Leaf `i` of every committed tree carries a timestamp no later than the tree head's: a round's new
     leaves all carry the round's timestamp, which is the new tree head's. -/
